@@ -5,6 +5,7 @@ import (
 	"fmt"
 	"reflect"
 	"regexp"
+	"strconv"
 	"strings"
 
 	"github.com/bytedance/sonic"
@@ -115,6 +116,38 @@ func c05Doc(t *c05T, data []byte) {
 		var a []int64
 		err := sonic.UnmarshalString(s, &a)
 		t.add("UnmarshalString([]i64)", "%s:%s", errFull(err), h64(gen.Dump(reflect.ValueOf(a))))
+	}
+	{
+		// scalar destinations with their own opcodes: json.Number (also quoted), numbers given as strings,
+		// bool, and a struct that holds them
+		var n json.Number
+		err := sonic.UnmarshalString(s, &n)
+		t.add("UnmarshalString(json.Number)", "%s:%s", errFull(err), h64(string(n)))
+		var ns []json.Number
+		err = sonic.UnmarshalString(s, &ns)
+		t.add("UnmarshalString([]json.Number)", "%s:%s", errFull(err), h64(gen.Dump(reflect.ValueOf(ns))))
+		var b bool
+		err = sonic.UnmarshalString(s, &b)
+		t.add("UnmarshalString(bool)", "%s:%v", errFull(err), b)
+		var f float32
+		err = sonic.UnmarshalString(s, &f)
+		t.add("UnmarshalString(float32)", "%s:%v", errFull(err), f)
+		var u uint8
+		err = sonic.UnmarshalString(s, &u)
+		t.add("UnmarshalString(uint8)", "%s:%v", errFull(err), u)
+		var q struct {
+			A json.Number `json:"a"`
+			I int         `json:"i,string"`
+			F float64     `json:"f,string"`
+			S string      `json:"s,string"`
+			N json.Number `json:"n,string"`
+			B bool        `json:"b,string"`
+		}
+		err = sonic.UnmarshalString(s, &q)
+		t.add("UnmarshalString(struct of ,string fields)", "%s:%s", errFull(err), h64(gen.Dump(reflect.ValueOf(q))))
+		var mi map[int]json.Number
+		err = sonic.UnmarshalString(s, &mi)
+		t.add("UnmarshalString(map[int]json.Number)", "%s:%s", errFull(err), h64(gen.Dump(reflect.ValueOf(mi))))
 	}
 	{
 		var a string
@@ -343,7 +376,12 @@ func runC05(c *Ctx) {
 	for k := 0; k < N1; k++ {
 		r0 := c.Rng(1<<26 + k)
 		var doc string
-		switch k % 4 {
+		switch k % 6 {
+		case 4:
+			// quoted numbers and literals: the scalar opcodes look behind an opening quote
+			doc = `"` + r0.NumberLiteral() + `"`
+		case 5:
+			doc = `{"a":"` + r0.NumberLiteral() + `","i":"-12","f":"1.5e3","n":"` + r0.NumberLiteral() + `","b":"true","s":"\"x\"","` + strconv.Itoa(r0.Intn(100)) + `":7}`
 		case 0:
 			doc = r0.Doc(&small)
 		case 1:
